@@ -35,7 +35,9 @@ def results(tr):
     for r in tr.pcm:
         if r['row'] is not None:
             row = r['row']
-            alloc.append((str(row['Date']), tuple(sorted((k, hx(v)) for k, v in row.items() if k != 'Date'))))
+            # values by asset, then the order in which the row lists its assets (= column order of the allocation table)
+            alloc.append((str(row['Date']), tuple(sorted((k, hx(v)) for k, v in row.items() if k != 'Date')),
+                          [k for k in row if k != 'Date']))
     err = None
     if tr.error is not None:
         err = (tr.error[0], tr.error[1], str(tr.error[2]))
